@@ -1,24 +1,31 @@
 (* C20: interleaving model of the interior-mutable state that is reachable
    through shared references to one AnnotationStore.
 
-   Shared cells (all members of a store hold clones of the store's Config, and
-   Config::clone shares the Arc, so there is ONE mode cell per store):
-     md      Config::serialize_mode : Arc<RwLock<SerializeMode>>   (config.rs)
+   Cells:
      flags   TextResource::changed / AnnotationDataSet::changed : Arc<RwLock<bool>>,
-             one per member (resources.rs, annotationdataset.rs, file.rs ChangeMarker)
+             one per member, shared by all threads (resources.rs, annotationdataset.rs,
+             file.rs ChangeMarker)
+     mode    the serialisation mode (config.rs).  Since fix 5f67dd0 in /repo it is a
+             thread-local cell (SERIALIZE_MODE): each thread has its own ([tmd]).
+             Before, it was Config::serialize_mode : Arc<RwLock<SerializeMode>>, shared
+             by every clone of the store's Config, i.e. ONE cell per store ([md]).
+             Both designs are modelled: every definition takes [sh : bool],
+             sh = false  the mode is confined to the thread (the code as it is now),
+             sh = true   the mode is one shared cell (the code as it was; kept because it
+                         shows precisely why the property failed, and as the reference
+                         for the seeded reversal of the repair).
 
-   A thread is a stack of commands.  The commands that touch a shared cell are
-   exactly the places where /repo calls verif::yield_point (cfg stam_verif):
+   A thread is a stack of commands.  The commands that touch a cell are exactly the
+   places where /repo calls verif::yield_point (cfg stam_verif):
      SetMode m        Config::set_serialize_mode            (site 1)
      IfMode a n       Config::serialize_mode() and the branch taken on it in
                       impl Serialize for TextResource / AnnotationDataSet      (site 2)
      IfChanged i b    ChangeMarker::changed() of member i, b = the flush       (site 3)
      ClearChanged i   ChangeMarker::mark_unchanged()                           (site 4)
-     Yield            a scheduling point without effect on the shared cells
-                      (thread start; set_serialize_mode on a private Config)
+     Yield            a scheduling point without effect (thread start)
    Emit / FEmit are thread-local: a token appended to the string the thread is
-   building, resp. to the stand-off file it is writing.  There is no command that
-   sets a changed flag: mark_changed() is only reachable through &mut self.
+   building, resp. written to a stand-off file.  There is no command that sets a
+   changed flag: mark_changed() is only reachable through &mut self.
 
    Definitions only; proofs are in Proofs/Conc.v. *)
 From Coq Require Import List Arith Bool.
@@ -31,6 +38,9 @@ Definition mode_eqb (a b : mode) : bool :=
 
 Definition tok := nat.
 
+Definition t_inline (i : nat) : tok := 2 * i.        (* member i written with its content *)
+Definition t_include (i : nat) : tok := 2 * i + 1.   (* member i written as {"@include": filename} *)
+
 Inductive cmd : Type :=
 | Yield
 | Emit (t : tok)
@@ -41,7 +51,7 @@ Inductive cmd : Type :=
 | ClearChanged (i : nat)
 | Abort.   (* model fuel exhausted (nesting of stand-off flushes deeper than the fuel) *)
 
-Record thread := mkT { stk : list cmd; out : list tok; fout : list (nat * tok); dead : bool }.
+Record thread := mkT { stk : list cmd; tmd : mode; out : list tok; fout : list (nat * tok); dead : bool }.
 
 Record state := mkS { md : mode; flags : list bool; thr : list thread }.
 
@@ -64,36 +74,41 @@ Fixpoint upd {X : Type} (i : nat) (x : X) (l : list X) : list X :=
 Definition branch (m : mode) (a n : list cmd) : list cmd :=
   match m with Allow => a | NoInc => n end.
 
+(* the mode a thread sees *)
+Definition cur_mode (sh : bool) (m : mode) (t : thread) : mode := if sh then m else tmd t.
+
 (* one atomic action of one thread *)
-Definition step1 (m : mode) (fl : list bool) (t : thread) : mode * list bool * thread :=
+Definition step1 (sh : bool) (m : mode) (fl : list bool) (t : thread) : mode * list bool * thread :=
   match stk t with
   | [] => (m, fl, t)
   | c :: k =>
       match c with
-      | Yield => (m, fl, mkT k (out t) (fout t) (dead t))
-      | Emit x => (m, fl, mkT k (out t ++ [x]) (fout t) (dead t))
-      | FEmit f x => (m, fl, mkT k (out t) (fout t ++ [(f, x)]) (dead t))
-      | SetMode m' => (m', fl, mkT k (out t) (fout t) (dead t))
-      | IfMode a n => (m, fl, mkT (branch m a n ++ k) (out t) (fout t) (dead t))
-      | IfChanged i b => (m, fl, mkT ((if flag i fl then b else []) ++ k) (out t) (fout t) (dead t))
-      | ClearChanged i => (m, clear i fl, mkT k (out t) (fout t) (dead t))
-      | Abort => (m, fl, mkT [] (out t) (fout t) true)
+      | Yield => (m, fl, mkT k (tmd t) (out t) (fout t) (dead t))
+      | Emit x => (m, fl, mkT k (tmd t) (out t ++ [x]) (fout t) (dead t))
+      | FEmit f x => (m, fl, mkT k (tmd t) (out t) (fout t ++ [(f, x)]) (dead t))
+      | SetMode m' =>
+          if sh then (m', fl, mkT k (tmd t) (out t) (fout t) (dead t))
+          else (m, fl, mkT k m' (out t) (fout t) (dead t))
+      | IfMode a n => (m, fl, mkT (branch (cur_mode sh m t) a n ++ k) (tmd t) (out t) (fout t) (dead t))
+      | IfChanged i b => (m, fl, mkT ((if flag i fl then b else []) ++ k) (tmd t) (out t) (fout t) (dead t))
+      | ClearChanged i => (m, clear i fl, mkT k (tmd t) (out t) (fout t) (dead t))
+      | Abort => (m, fl, mkT [] (tmd t) (out t) (fout t) true)
       end
   end.
 
 (* thread i performs one action; an index without a thread is a stutter *)
-Definition step (i : nat) (st : state) : state :=
+Definition step (sh : bool) (i : nat) (st : state) : state :=
   match nth_error (thr st) i with
   | None => st
   | Some t =>
-      match step1 (md st) (flags st) t with
+      match step1 sh (md st) (flags st) t with
       | (m, fl, t') => mkS m fl (upd i t' (thr st))
       end
   end.
 
 (* a schedule is any list of thread indices *)
-Definition run (sched : list nat) (st : state) : state :=
-  fold_left (fun s i => step i s) sched st.
+Definition run (sh : bool) (sched : list nat) (st : state) : state :=
+  fold_left (fun s i => step sh i s) sched st.
 
 Definition finished (t : thread) : bool := match stk t with [] => true | _ => false end.
 
@@ -103,14 +118,14 @@ Definition finished (t : thread) : bool := match stk t with [] => true | _ => fa
 Definition is_local (c : cmd) : bool :=
   match c with Emit _ | FEmit _ _ | Abort => true | _ => false end.
 
-Fixpoint advance (n : nat) (i : nat) (st : state) : state :=
+Fixpoint advance (sh : bool) (n : nat) (i : nat) (st : state) : state :=
   match n with
   | 0 => st
   | S n' =>
       match nth_error (thr st) i with
       | Some t =>
           match stk t with
-          | c :: _ => if is_local c then advance n' i (step i st) else st
+          | c :: _ => if is_local c then advance sh n' i (step sh i st) else st
           | [] => st
           end
       | None => st
@@ -120,11 +135,11 @@ Fixpoint advance (n : nat) (i : nat) (st : state) : state :=
 Definition stack_len (i : nat) (st : state) : nat :=
   match nth_error (thr st) i with Some t => length (stk t) | None => 0 end.
 
-Definition cstep (i : nat) (st : state) : state :=
-  let st1 := step i st in advance (stack_len i st1) i st1.
+Definition cstep (sh : bool) (i : nat) (st : state) : state :=
+  let st1 := step sh i st in advance sh (stack_len i st1) i st1.
 
-Definition run_coarse (sched : list nat) (st : state) : state :=
-  fold_left (fun s i => cstep i s) sched st.
+Definition run_coarse (sh : bool) (sched : list nat) (st : state) : state :=
+  fold_left (fun s i => cstep sh i s) sched st.
 
 (* ---- the serialisation entry points as thread programs ---- *)
 
@@ -133,9 +148,6 @@ Inductive fkind :=
 | NoFile   (* inline: filename = None *)
 | Txt      (* stand-off plain text file (resource whose filename does not end in .json) *)
 | Json.    (* stand-off STAM JSON file (dataset, or resource with a .json filename) *)
-
-Definition t_inline (i : nat) : tok := 2 * i.        (* member i written with its content *)
-Definition t_include (i : nat) : tok := 2 * i + 1.   (* member i written as {"@include": filename} *)
 
 Definition emit (sink : option nat) (t : tok) : cmd :=
   match sink with None => Emit t | Some f => FEmit f t end.
@@ -176,9 +188,10 @@ Fixpoint ser_members (fuel : nat) (i : nat) (mem : list fkind) : list cmd :=
 Inductive op :=
 | OpPure                      (* iterate, search, query, .parallel(): no access to the cells *)
 | OpStore                     (* store.to_json_string(store.config()) : members in order *)
-| OpMemberTrait (i : nat)     (* ToJson::to_json_string(member, config of the store's family) *)
+| OpMemberTrait (i : nat)     (* ToJson::to_json_string(member, config of the store) *)
 | OpMemberPlain (i : nat)     (* the inherent member.to_json_string(): no mode write *)
-| OpMemberForeign (i : nat).  (* ToJson::to_json_string(member, &Config::default()): writes a private cell *)
+| OpMemberForeign (i : nat).  (* ToJson::to_json_string(member, &Config::default()): same code path as
+                                 OpMemberTrait now that the mode does not live in the Config *)
 
 Definition kind_of (mem : list fkind) (i : nat) : fkind := nth i mem NoFile.
 
@@ -188,21 +201,22 @@ Definition prog (fuel : nat) (mem : list fkind) (o : op) : list cmd :=
   | OpStore => Yield :: ser_members fuel 0 mem
   | OpMemberTrait i => Yield :: SetMode NoInc :: ser_member fuel None i (kind_of mem i) ++ [SetMode Allow]
   | OpMemberPlain i => Yield :: ser_member fuel None i (kind_of mem i)
-  | OpMemberForeign i => Yield :: Yield :: ser_member fuel None i (kind_of mem i) ++ [Yield]
+  | OpMemberForeign i => Yield :: SetMode NoInc :: ser_member fuel None i (kind_of mem i) ++ [SetMode Allow]
   end.
 
 Definition model_fuel : nat := 6.
 
 Record scen := mkScen { members : list fkind; changed0 : list bool; ops : list op }.
 
-Definition init_thread (p : list cmd) : thread := mkT p [] [] false.
+Definition init_thread (p : list cmd) : thread := mkT p Allow [] [] false.
 
 Definition init (sc : scen) : state :=
   mkS Allow (changed0 sc) (map (fun o => init_thread (prog model_fuel (members sc) o)) (ops sc)).
 
 (* ---- static reading of a program: what it emits into its own string, as a
    function of the mode only.  Defined when every flush body (IfChanged) is
-   quiet (emits nothing into the string) and leaves the mode as it found it. ---- *)
+   quiet (emits nothing into the string) and leaves the mode as it found it, and
+   everything written to a stand-off file is the content of the member. ---- *)
 Fixpoint sem_cmd (m : mode) (c : cmd) {struct c} : option (list tok * mode) :=
   let fix sem_l (m : mode) (l : list cmd) {struct l} : option (list tok * mode) :=
       match l with
@@ -220,7 +234,7 @@ Fixpoint sem_cmd (m : mode) (c : cmd) {struct c} : option (list tok * mode) :=
   match c with
   | Yield => Some ([], m)
   | Emit x => Some ([x], m)
-  | FEmit _ _ => Some ([], m)
+  | FEmit f x => if Nat.eqb x (t_inline f) then Some ([], m) else None
   | SetMode m' => Some ([], m')
   | IfMode a n => match m with Allow => sem_l m a | NoInc => sem_l m n end
   | IfChanged _ b =>
@@ -246,6 +260,12 @@ Fixpoint sem (m : mode) (l : list cmd) {struct l} : option (list tok * mode) :=
       end
   end.
 
+(* every write to a stand-off file so far carried the content of the member *)
+Definition files_ok (t : thread) : Prop :=
+  Forall (fun p => snd p = t_inline (fst p)) (fout t).
+
+(* ---- only for the shared-cell design (sh = true) ---- *)
+
 (* the program cannot write the mode cell, given that changed flags are only ever
    cleared and start as c0 (a flush body behind a flag that is false is dead code) *)
 Fixpoint nw_cmd (c0 : list bool) (c : cmd) {struct c} : bool :=
@@ -263,9 +283,9 @@ Fixpoint nw_cmd (c0 : list bool) (c : cmd) {struct c} : bool :=
 
 Definition nw (c0 : list bool) (l : list cmd) : bool := forallb (nw_cmd c0) l.
 
-(* the program never looks at a shared cell: straight-line code *)
+(* the program never looks at a cell: straight-line code *)
 Definition straight_cmd (c : cmd) : bool :=
-  match c with IfMode _ _ | IfChanged _ _ | Abort => false | _ => true end.
+  match c with IfMode _ _ | IfChanged _ _ | Abort | FEmit _ _ => false | _ => true end.
 
 Definition straight (l : list cmd) : bool := forallb straight_cmd l.
 
@@ -277,9 +297,9 @@ Fixpoint others {X : Type} (i : nat) (l : list X) : list X :=
   | x :: r, S i' => x :: others i' r
   end.
 
-(* The class in which the property fails: thread i looks at the mode cell while
-   some other thread can write it. *)
-Definition Known_C20_mode_write (c0 : list bool) (ts : list thread) (i : nat) : bool :=
+(* The class in which the property failed with the shared cell: thread i looks at the
+   mode cell while some other thread can write it. *)
+Definition Shared_mode_race (c0 : list bool) (ts : list thread) (i : nat) : bool :=
   match nth_error ts i with
   | None => false
   | Some t => negb (straight (stk t)) && negb (forallb (fun tj => nw c0 (stk tj)) (others i ts))
